@@ -637,7 +637,7 @@ func ruleLookAhead(c *Ctx, rule string) {
 		read, reasm *ssa.Function
 		wantFlag    string
 		code        int64
-	}{{a.ClientRead, a.ClientReasm, "ServerStreams", 13}, {a.ServerRead, a.ServerReasm, "ClientStreams", 3}} {
+	}{{a.ClientRead, a.ClientReasmEntry, "ServerStreams", 13}, {a.ServerRead, a.ServerReasmEntry, "ClientStreams", 3}} {
 		if !c.need(rule, "read method", side.read) || !c.need(rule, "reassembly function", side.reasm) {
 			continue
 		}
@@ -685,6 +685,10 @@ func ruleLookAhead(c *Ctx, rule string) {
 				continue
 			}
 			if b, isB := f.V.(*ssa.BinOp); isB && b.Op == token.EQL && isNilConst(b.Y) && origin(b.X) == err1 {
+				continue
+			}
+			// the same test written with the opposite comparison and polarity: (err != nil) == false
+			if x, op, y, isCmp := cmpFact(f.Raw); isCmp && op == token.EQL && isNilConst(y) && origin(x) == err1 {
 				continue
 			}
 			extra = desc(f.V) + fmt.Sprintf(" == %v", f.True)
